@@ -1,3 +1,4 @@
+pub mod forward;
 pub mod h1;
 pub mod relay;
 pub mod requests;
@@ -10,7 +11,7 @@ static RESPONSES: requests::Requests = requests::Requests { focus: requests::Foc
 static EGRESS: requests::Requests = requests::Requests { focus: requests::Focus::Egress };
 
 pub fn all() -> Vec<&'static dyn Scenario> {
-    vec![&relay::Relay, &AUTH, &RESPONSES, &EGRESS, &h1::H1, &timeouts::Timeouts]
+    vec![&relay::Relay, &AUTH, &RESPONSES, &EGRESS, &h1::H1, &timeouts::Timeouts, &forward::Forward]
 }
 
 pub fn by_name(name: &str) -> Option<&'static dyn Scenario> {
